@@ -19,22 +19,25 @@
         only when the file has been read, every queued client replay has finished, every recorded response has
         been served and no client connection is open -- and then it does end (within two ticks of 105 ms).
      S6 (readfile: "Read flows from file", "Read only matching flows", '"-" for reading from stdin') the flows of the
-        file are announced once each, in file order, only those matching readfile_filter; in reverse proxy mode
+        file (HTTP and TCP flows) are announced once each, in file order, only those matching readfile_filter; in reverse proxy mode
         (a single mode) they are announced with the reverse target as host ("we adjust the target host to the
         reverse proxy destination for all flows we load"), in regular mode with their own host.
      S7 (ErrorCheck) the exit with status 1 is explained on stderr ("Error(s) logged during startup"), and with
         repeat_errors_on_stderr every logged error is repeated there; (DoneHook: "log handlers are shut down at
         this point") once the done phase is over the master's log handlers are no longer installed; the code
-        itself logs no error unless the file is unreadable/corrupt, an addon failed or a task crashed.
+        itself logs no error unless the file is unreadable/corrupt, an addon failed or a task crashed; an exception
+        nobody handles (the loop's exception handler) is logged as an error and never ends the run by itself.
 
    Events (JSON records written by props/X08.py):
      [k |-> "cfg", ks, rk (none|ok|missing|corrupt), rn, fh (sync|gate), cn, conc (1|-1), sn, setup, err,
-                   rs (path|stdin), rf (""|odd), mode (regular|reverse|two), rep]
+                   rs (path|stdin), rf (""|odd), mode (regular|reverse|two), rep, rt (""|mixed)]
      [k |-> "op", op |-> start|setup_ok|setup_fail|shutdown|cancel|release|dial_ok|dial_fail|respond|conn_open|
-                         conn_req|conn_close|logerr|crash|tick|burst, ok |-> BOOLEAN]     environment action
+                         conn_req|conn_close|logerr|crash|crash_msg|tick|burst, ok |-> BOOLEAN,
+                   b |-> inside a burst]                                                  environment action
      [k |-> "setup", ph |-> begin|end]        proxyserver.setup_servers entered / returned successfully
      [k |-> "hook", a |-> 1|2, h |-> running|done|request|response|error, src |-> ""|r|c|s, i |-> n,
-                    host |-> o (the flow's own host) | v (the reverse target) | x | ""]
+                    host |-> o (the flow's own host) | v (the reverse target) | x | "", p |-> http|tcp|""]
+                    (for a TCP flow request / response / error stand for tcp_start / tcp_end / tcp_error)
      [k |-> "err", by |-> env|code]           an ERROR log entry (seen by an independent log handler)
      [k |-> "served", i |-> n]                the request was answered from recording n (0: not from a recording)
      [k |-> "exit", how |-> returned|SystemExit|cancelled|<exception class>, code |-> n, said |-> stderr names
@@ -45,14 +48,16 @@
 EXTENDS Verif
 
 NoCfg == [ks |-> FALSE, rk |-> "none", rn |-> 0, fh |-> "sync", cn |-> 0, conc |-> 1, sn |-> 0, setup |-> "ok",
-          err |-> "none", rs |-> "path", rf |-> "", mode |-> "regular", rep |-> FALSE]
+          err |-> "none", rs |-> "path", rf |-> "", mode |-> "regular", rep |-> FALSE, rt |-> ""]
 MonInit == [bad |-> <<>>, wit |-> {}, cfg |-> NoCfg, started |-> FALSE, setupEnd |-> FALSE, shutReq |-> FALSE,
             cancelReq |-> FALSE, ran |-> {}, dn |-> {}, exited |-> FALSE, post |-> FALSE, serr |-> FALSE,
             rdone |-> 0, cfin |-> {}, served |-> 0, conns |-> 0, idle |-> 0, late |-> 0, kt |-> 0, rlast |-> 0,
-            crashes |-> 0]
+            crashes |-> 0, unlogged |-> FALSE]
 
 WorkOpts(c) == c.rk # "none" \/ c.cn > 0 \/ c.sn > 0
-Match(c, i) == c.rf = "" \/ i % 2 = 1                       \* readfile_filter of the scenarios: odd-numbered flows
+IsTcp(c, i) == c.rt = "mixed" /\ i % 3 = 2                  \* mixed files: flows 2, 5, .. are TCP flows
+\* readfile_filter of the scenarios ("odd"): a URL filter matching the odd-numbered HTTP flows
+Match(c, i) == c.rf = "" \/ (i % 2 = 1 /\ ~IsTcp(c, i))
 ExpCount(c) == Cardinality({i \in 1..c.rn : Match(c, i)})
 \* what the run still has to wait for (independent of the code's own counters: what the addons and the environment saw)
 PendKind(m) == IF m.cfg.rk \in {"ok", "corrupt"} /\ m.rdone < ExpCount(m.cfg) THEN "read"
@@ -66,6 +71,7 @@ AskedToEnd(m) == (m.shutReq \/ m.cancelReq) /\ m.started
 \* checks made whenever the loop is quiescent (op / end records)
 Quiescent(m) ==
   IF m.exited THEN <<>>
+  ELSE IF m.unlogged THEN <<"X08.crash_not_logged">>
   ELSE IF m.ran # {} /\ m.ran # {1, 2} THEN <<"X08.running_missing">>
   ELSE IF m.ran # {} /\ m.serr THEN <<"X08.startup_error_ignored", "still_running">>
   ELSE IF m.late >= 1 THEN <<"X08.shutdown_ignored", IF m.ran = {} THEN "during_setup" ELSE "running">>
@@ -75,7 +81,7 @@ Quiescent(m) ==
 OnHook(m, ev) ==
   LET flowhook == ev.h \in {"request", "response", "error"}
       b == IF m.exited THEN <<"X08.hook_after_exit", ev.h, ev.src>>
-           ELSE IF ev.a \in m.dn THEN (IF ev.h = "done" THEN <<"X08.done_twice">> ELSE <<"X08.hook_after_done", ev.h, ev.src>>)
+           ELSE IF ev.a \in m.dn THEN (IF ev.h = "done" THEN <<"X08.done_twice">> ELSE <<"X08.hook_after_done", ev.h, ev.src, IF m.dn # m.ran THEN "done_phase" ELSE "all_done">>)
            ELSE IF ev.h = "running" /\ ev.a \in m.ran THEN <<"X08.running_twice">>
            ELSE IF ev.h = "running" /\ ~m.setupEnd THEN <<"X08.running_before_servers_up">>
            ELSE IF ev.h = "running" /\ m.ran = {} /\ m.serr THEN <<"X08.running_despite_startup_error">>
@@ -85,9 +91,11 @@ OnHook(m, ev) ==
            ELSE IF ev.src = "r" /\ ev.a = 1 /\ ev.h = "request"
                    /\ (ev.i <= m.rlast \/ ev.i > m.cfg.rn \/ \E j \in (m.rlast + 1)..(ev.i - 1) : Match(m.cfg, j))
                 THEN <<"X08.read_unexpected_flow", IF ev.i <= m.rlast THEN "repeated_or_reordered" ELSE "skipped">>
-           ELSE IF ev.src = "r" /\ flowhook /\ m.cfg.mode = "reverse" /\ Get(ev, "host", "v") # "v"
+           ELSE IF ev.src = "r" /\ ev.a = 1 /\ ev.h = "request" /\ (Get(ev, "p", "http") = "tcp") # IsTcp(m.cfg, ev.i)
+                THEN <<"X08.read_unexpected_flow", "wrong_type">>
+           ELSE IF ev.src = "r" /\ flowhook /\ Get(ev, "p", "http") = "http" /\ m.cfg.mode = "reverse" /\ Get(ev, "host", "v") # "v"
                 THEN <<"X08.loaded_flow_host", "reverse", ev.host>>
-           ELSE IF ev.src = "r" /\ flowhook /\ m.cfg.mode = "regular" /\ Get(ev, "host", "o") # "o"
+           ELSE IF ev.src = "r" /\ flowhook /\ Get(ev, "p", "http") = "http" /\ m.cfg.mode = "regular" /\ Get(ev, "host", "o") # "o"
                 THEN <<"X08.loaded_flow_host", "regular", ev.host>>
            ELSE <<>>
       w == (IF ev.h = "running" THEN {"running"} ELSE {})
@@ -98,6 +106,7 @@ OnHook(m, ev) ==
                  THEN (IF m.cfg.rf # "" /\ ev.i > m.rlast + 1 THEN {"read_skipped_filtered_flow"} ELSE {})
                       \cup (IF m.cfg.mode = "reverse" THEN {"read_in_reverse_mode"} ELSE {})
                       \cup (IF m.cfg.rs = "stdin" THEN {"read_from_stdin"} ELSE {})
+                      \cup (IF Get(ev, "p", "http") = "tcp" THEN {"read_tcp_flow"} ELSE {})
                  ELSE {})
   IN [m EXCEPT !.bad = b, !.wit = @ \cup w,
                !.ran = IF ev.h = "running" THEN @ \cup {ev.a} ELSE @,
@@ -109,6 +118,7 @@ OnHook(m, ev) ==
 OnExit(m, ev) ==
   LET b == IF m.exited THEN <<"X08.exit_twice">>
            ELSE IF ev.how \notin {"returned", "SystemExit", "cancelled"} THEN <<"X08.run_raised", ev.how>>
+           ELSE IF m.unlogged THEN <<"X08.crash_not_logged">>
            ELSE IF m.ran # {} /\ m.ran # {1, 2} THEN <<"X08.running_missing">>
            ELSE IF m.ran # {} /\ m.dn # m.ran THEN <<"X08.done_missing", ev.how>>
            ELSE IF ev.how = "SystemExit" THEN
@@ -134,7 +144,7 @@ OnExit(m, ev) ==
   IN [m EXCEPT !.bad = b, !.wit = IF b = <<>> THEN @ \cup w ELSE @, !.exited = TRUE]
 
 OnOp(m, ev) ==
-  LET q == Quiescent(m)
+  LET q == IF Get(ev, "b", FALSE) THEN <<>> ELSE Quiescent(m)   \* inside a burst the loop has not run yet
       ok == Get(ev, "ok", TRUE)
       pk == PendKind(m)
       idleNow == Waiting(m) /\ ~m.cfg.ks /\ WorkOpts(m.cfg) /\ pk = "none" /\ ~m.serr
@@ -146,7 +156,8 @@ OnOp(m, ev) ==
      ELSE [m EXCEPT !.wit = @ \cup w,
                     !.post = @ \/ m.ran # {},
                     !.started = @ \/ (ev.op = "start" /\ ok),
-                    !.crashes = IF ev.op = "crash" THEN @ + 1 ELSE @,
+                    !.crashes = IF ev.op \in {"crash", "crash_msg"} THEN @ + 1 ELSE @,
+                    !.unlogged = @ \/ (ev.op \in {"crash", "crash_msg"} /\ ~m.exited),
                     !.shutReq = @ \/ (ev.op = "shutdown" /\ m.started /\ ~m.exited),
                     !.cancelReq = @ \/ (ev.op = "cancel" /\ ok /\ m.started /\ ~m.exited),
                     !.conns = IF ev.op = "conn_open" /\ ok THEN @ + 1
@@ -170,11 +181,13 @@ MonStep(m, ev) ==
   CASE ev.k = "cfg" -> [m EXCEPT !.cfg = [ks |-> ev.ks, rk |-> ev.rk, rn |-> ev.rn, fh |-> ev.fh, cn |-> ev.cn,
                                           conc |-> ev.conc, sn |-> ev.sn, setup |-> ev.setup, err |-> ev.err,
                                           rs |-> Get(ev, "rs", "path"), rf |-> Get(ev, "rf", ""),
-                                          mode |-> Get(ev, "mode", "regular"), rep |-> Get(ev, "rep", FALSE)]]
+                                          mode |-> Get(ev, "mode", "regular"), rep |-> Get(ev, "rep", FALSE),
+                                          rt |-> Get(ev, "rt", "")]]
     [] ev.k = "op" -> OnOp(m, ev)
     [] ev.k = "setup" -> [m EXCEPT !.setupEnd = @ \/ ev.ph = "end"]
     [] ev.k = "hook" -> OnHook(m, ev)
     [] ev.k = "err" -> [m EXCEPT !.serr = @ \/ (~m.post /\ ~m.exited),
+                                 !.unlogged = @ /\ Get(ev, "by", "env") # "code",
                                  !.bad = IF Get(ev, "by", "env") = "code" /\ ~m.exited /\ m.crashes = 0
                                             /\ m.cfg.rk \notin {"missing", "corrupt"} /\ m.cfg.err # "running"
                                          THEN <<"X08.unexplained_error">> ELSE <<>>,
